@@ -25,6 +25,7 @@ import (
 	"time"
 
 	"github.com/fatedier/frp/pkg/msg"
+	netpkg "github.com/fatedier/frp/pkg/util/net"
 
 	"verif/h"
 )
@@ -352,6 +353,7 @@ allowPorts = [{start=%d,end=%d}]
 	actor("registrations", 0, b.registrationVariants)
 	actor("traffic", 0, func(g *gen, n int) { b.trafficActor(g, n, honestPort) })
 	actor("dashboard", 0, b.dashboardActor)
+	actor("backlog", 0, b.backlogActor)
 	wg.Wait()
 	close(stop)
 	hw.Wait()
@@ -840,8 +842,20 @@ func (b *batch) natholeChurn(g *gen, n int) {
 			}
 			gmu.Unlock()
 			cm.Sid, cm.ProxyName = sm.Sid, name
+			gmu.Lock()
+			when := g.r.Intn(4) // success / failure reports for the real session id, before or after the owner's answer
+			gmu.Unlock()
+			rep := &msg.NatHoleReport{Sid: sm.Sid, Success: when%2 == 0}
+			if when < 2 {
+				b.log.add("nathole-report", rep)
+				_ = p.Send(rep)
+			}
 			b.log.add("nathole-client", cm)
 			_ = p.Send(cm)
+			if when >= 2 {
+				b.log.add("nathole-report", rep)
+				_ = p.Send(rep)
+			}
 			run.Count("nathole_sids_answered", 1)
 		}})
 		if err != nil || !owner.LoggedIn() {
@@ -1339,4 +1353,74 @@ func loginWindowCase(c *h.Case) {
 	}
 	judgeRaces(c, "frps", child)
 	run.Distinct(fmt.Sprintf("login-window|%v|%d|%d", mux, delay, c.Idx))
+}
+
+// backlogActor: a logged-in peer sends requests that are all answered from the session's read loop (pings, refused
+// registrations) and never reads an answer, until its own writes stall or a cap is reached, then drops the connection.
+// Whatever frps does with the unwritable answers, the session has to be torn down: the client's re-login with the
+// same run id (what frpc does on every reconnect) must be answered.
+func (b *batch) backlogActor(g *gen, n int) {
+	for round := 0; round < 2 && !b.dead(); round++ {
+		raw, err := b.dial(h.PeerOpts{SkipLogin: true})
+		if err != nil {
+			continue
+		}
+		rid := fmt.Sprintf("%sbacklog%d", b.pfx, round)
+		ts := time.Now().Unix()
+		if err := msg.WriteMsg(raw.Ctl, &msg.Login{Version: "0.62.1", RunID: rid, Timestamp: ts, PrivilegeKey: h.AuthKey(token, ts), PoolCount: 1}); err != nil {
+			raw.Close()
+			continue
+		}
+		var lr msg.LoginResp
+		_ = raw.Ctl.SetReadDeadline(time.Now().Add(20 * time.Second))
+		if err := msg.ReadMsgInto(raw.Ctl, &lr); err != nil || lr.Error != "" {
+			raw.Close()
+			continue
+		}
+		enc, err := netpkg.NewCryptoReadWriter(raw.Ctl, []byte(token))
+		if err != nil {
+			raw.Close()
+			continue
+		}
+		long := strings.Repeat("n", 3000)
+		sent := 0
+		for ; sent < 6000; sent++ {
+			_ = raw.Ctl.SetWriteDeadline(time.Now().Add(1200 * time.Millisecond))
+			var m msg.Message = &msg.Ping{}
+			if sent%2 == 0 {
+				m = &msg.NewProxy{ProxyName: long, ProxyType: "no-such-type"} // refused with a long answer
+			}
+			if err := msg.WriteMsg(enc, m); err != nil {
+				break // our writes stall: frps is no longer reading, its answers have nowhere to go
+			}
+		}
+		raw.Close()
+		run.Count("backlog_requests_unread", int64(sent))
+		type res struct {
+			p   *h.Peer
+			err error
+		}
+		ch := make(chan res, 1)
+		go func() { p, err := b.dial(h.PeerOpts{RunID: rid}); ch <- res{p, err} }()
+		select {
+		case r := <-ch:
+			if r.p != nil {
+				if r.err == nil && r.p.LoggedIn() {
+					b.sessionLiveness(r.p, "re-login after an unread backlog")
+				} else if !b.dead() {
+					b.c.Data["last_messages"] = b.log.tail()
+					b.c.Violation("frps-relogin-refused-after-unread-backlog", "a session sent %d requests without reading an answer and dropped its connection; the re-login with the same run id %s failed: %v", sent, rid, r.err)
+				}
+				r.p.Close()
+			} else if !b.dead() {
+				b.c.Violation("frps-relogin-refused-after-unread-backlog", "a session sent %d requests without reading an answer and dropped its connection; the re-login with the same run id %s failed: %v", sent, rid, r.err)
+			}
+		case <-time.After(45 * time.Second):
+			if !b.dead() {
+				b.c.Data["last_messages"] = b.log.tail()
+				b.c.Violation("frps-wedged-relogin-after-unread-backlog", "a session sent %d requests without reading an answer and dropped its connection; its re-login with the same run id %s got no LoginResp within 45 s: the dead session is never torn down", sent, rid)
+				b.stalled.Store(true)
+			}
+		}
+	}
 }
